@@ -14,7 +14,7 @@ def main(tier):
         rule='the full product of import structure {leaf, encapsulated child, child that is itself an import, import of an import, grandchild} x instances {one, the same component twice} x '
              'library units {metre, library mm, mm defined through another library units, mm used only in a cn} x units-name clash {none, same name same definition, same name different definition, '
              'root imports a different units under the same name, clash two levels below the import} x component-name clash {none, like the child, like the referenced component, import named like a library '
-             'component} x root units {local, imported units on a variable, imported units only in a cn, the same units imported twice}; each case is a distinct set of files; judged = cases flattened, validated, '
+             'component} x root units {local, imported units on a variable, imported units only in a cn, the same units imported twice} x {one, two} <math> elements in the imported component; each case is a distinct set of files; judged = cases flattened, validated, '
              'analysed, compiled and run (C and Python) and compared with ground-truth values computed from the spec including unit scales',
         assumptions=[
             'ground truth: every library component computes y = 2x + 1 (through its child where present) in its own units; connected variables are converted with the ratio of the SI scales of their units',
